@@ -242,7 +242,8 @@ def spell_contexts(spec):
     out = {}
     for k, sp in variants.items():
         db = LatexContextDb()
-        db.add_context_category('c', macros=[sp])
+        # \\W[..]{..} (pylatexenc-3 spelling in every database): the macro under test also occurs inside an optional argument
+        db.add_context_category('c', macros=[sp, MacroSpec('W', '[{')])
         db.set_unknown_macro_spec(MacroSpec(''))
         db.set_unknown_environment_spec(EnvironmentSpec(''))
         out[k] = db
@@ -299,8 +300,8 @@ def spell_jobs(maxlen, K):
         for tup in itertools.product('*[{', repeat=n):
             spec = ''.join(tup)
             name = spell_name(spec)
-            atoms = ['\\' + name] + ARG_ATOMS
-            raw = dict(macros={name: list(spec)}, envs={}, specials={}, unknown_macro=True, unknown_env=True)
+            atoms = ['\\' + name] + ARG_ATOMS + ['\\W[', ']{y}']
+            raw = dict(macros={name: list(spec), 'W': ['[', '{']}, envs={}, specials={}, unknown_macro=True, unknown_env=True)
             contexts.RAW['spell_' + name] = raw
             cname = 'spell_' + name
             mc = pc.mc_text(atoms, cname, K=K) if False else None
